@@ -364,6 +364,70 @@ Proof.
     right. split; [reflexivity|]. exists ss. auto.
 Qed.
 
+Lemma hnc_ack cfg st1 conn link st' :
+  RInvC cfg st1 ->
+  validate_clientid (c_client conn) = true ->
+  (cf_max_connections (r_cfg st1) <=? slab_len (r_conns st1)) = false ->
+  (let client := c_client conn in
+   let saved := al_get str_eqb client (r_graveyard st1) in
+   let grave := al_remove str_eqb client (r_graveyard st1) in
+   let clean := c_clean conn in
+   let previous_session := match saved with Some (Some _) => true | _ => false end in
+   let '(trk, conn1, pubrels) :=
+     if negb clean then
+       match saved with
+       | Some (Some ss) => (ss_tracker ss, set_c_subs conn (ss_subs ss), ss_pubrels ss)
+       | _ => ({| tr_id := client; tr_reqs := []; tr_status := Paused Busy |}, conn, [])
+       end
+     else ({| tr_id := client; tr_reqs := []; tr_status := Paused Busy |}, conn, []) in
+   let groups1 := rejoin_groups (r_groups st1) (cf_strategy (r_cfg st1)) client (tr_reqs trk) in
+   let wills := match c_will conn1 with
+                | Some w => al_set str_eqb client w (r_wills st1)
+                | None => al_remove str_eqb client (r_wills st1)
+                end in
+   let conn2 := set_c_will conn1 None in
+   let '(conns, id) := slab_insert (r_conns st1) conn2 in
+   let '(ibufs, id_i) := slab_insert (r_ibufs st1) {| i_client := client; i_link := link |} in
+   let '(obufs, id_o) := slab_insert (r_obufs st1)
+         {| o_client := client; o_link := link; o_inflight := []; o_pubrels := pubrels; o_last := 0 |} in
+   let ack0 := {| a_committed := [AConnAck id (negb clean && previous_session)]; a_recorded := [] |} in
+   let '(acks, id_a) := slab_insert (r_acks st1) (commit_pubrels ack0 pubrels) in
+   let '(trackers, id_t) := slab_insert (r_trackers st1) trk in
+   if negb ((id_i =? id) && (id_o =? id) && (id_a =? id) && (id_t =? id)) then Panic P_SLAB_ALIGN
+   else
+     let st2 := {| r_cfg := r_cfg st1; r_graveyard := grave; r_conns := conns;
+                   r_cmap := al_set str_eqb client id (r_cmap st1);
+                   r_submap := submap_add_all (r_submap st1) (c_subs conn2) id;
+                   r_ibufs := ibufs; r_obufs := obufs; r_datalog := r_datalog st1; r_acks := acks;
+                   r_trackers := trackers; r_ready := r_ready st1; r_notif := r_notif st1;
+                   r_groups := groups1; r_wills := wills; r_links := r_links st1;
+                   r_oracle := r_oracle st1 |} in
+     do _ <- dbg_no_dups st2 id;
+     reschedule st2 id SInit) = Ok st' ->
+  exists id o l rest,
+    slab_get (r_obufs st') id = Some o /\ o_link o = link /\ slab_get (r_acks st') id = Some l /\
+    a_committed l = AConnAck id (negb (c_clean conn) &&
+                                 match al_get str_eqb (c_client conn) (r_graveyard st1) with Some (Some _) => true | _ => false end) :: rest.
+Proof.
+  intros HR1 Hv Hcap H. cbv zeta in H.
+  match type of H with (match ?X with _ => _ end) = _ => destruct X as [[trk conn1] pubrels] eqn:EX end.
+  destruct (slab_insert (r_conns st1) (set_c_will conn1 None)) as [conns id] eqn:Ic.
+  destruct (slab_insert (r_ibufs st1) _) as [ibufs id_i] eqn:Ii.
+  destruct (slab_insert (r_obufs st1) _) as [obufs id_o] eqn:Io.
+  destruct (slab_insert (r_acks st1) _) as [acks id_a] eqn:Ia.
+  destruct (slab_insert (r_trackers st1) trk) as [trackers id_t] eqn:It.
+  match type of H with (if ?b then _ else _) = _ => destruct b eqn:Eal end; [discriminate|].
+  apply negb_false_iff in Eal. repeat (apply andb_true_iff in Eal as [Eal ?]).
+  repeat match goal with E : (_ =? _) = true |- _ => apply N.eqb_eq in E end. subst id_i id_o id_a id_t.
+  apply bind_ok in H as (u & _ & H).
+  destruct (insert_spec _ _ _ _ (aligned_wf _ _ (ri_al_o _ _ HR1) (ri_wf _ _ HR1)) Io) as (_ & Ho2 & _).
+  destruct (insert_spec _ _ _ _ (aligned_wf _ _ (ri_al_a _ _ HR1) (ri_wf _ _ HR1)) Ia) as (_ & Ha2 & _).
+  pose proof (reschedule_keep _ _ _ _ H) as K.
+  eexists id, _, _, _. rewrite (keep_obufs _ _ K), (keep_acks _ _ K). cbn [r_obufs r_acks].
+  split; [exact Ho2|]. split; [reflexivity|]. split; [exact Ha2|].
+  rewrite Session.commit_pubrels_spec. cbn [a_committed app]. reflexivity.
+Qed.
+
 Lemma conn_ri cfg st conn link st' tr :
   RInvC cfg st -> r_notif st = [] -> DevEI st -> SessionInv.SessInv st ->
   (forall id k f i a, In (id, (k, f, i), a) tr -> k < link) ->
